@@ -77,6 +77,11 @@ impl Hooks for TaintHooks {
     }
     fn cond(&mut self, r: &mut Rng, _ctx: &BlkCtx) -> Expression {
         // half of the conditions are NULL checks of the sources' return register
+        // a constant condition (opaque predicate / folded comparison): one successor stays reachable in the control flow
+        // graph - the property's path notion - although the pointer inference never visits it
+        if r.chance(1, 10) {
+            return Expression::Const(crate::enc::bv_i64(r.range(0, 1), 1));
+        }
         match r.below(6) {
             0 | 1 | 2 => ebin(if r.chance(1, 2) { BinOpType::IntEqual } else { BinOpType::IntNotEqual }, evar("RAX"), econst(0)),
             3 => Expression::Var(var("ZF", 1)),
